@@ -1411,3 +1411,813 @@ def rule_rejections_are_visible(model: Model, rule_id: str = 'C03-R4') -> RuleRe
                            "the fast pass can reject from inside a function that is stored in a table / passed on (the diagnostic pass "
                            "never goes there): convert() finds no error tree for the rejection and raises the internal RuntimeError")
     return r
+
+
+# ---------------------------------------------------------------------------- C05 / C15: a supplied value is never skipped for what it is
+
+
+def rule_supplied_values_converted(model: Model, rule_id: str = 'C15-R8') -> RuleResult:
+    """In the mapping passes of the dataclass converter, whether the value found under a known key is converted depends on the key (known,
+    not seen before) and never on the value itself: an explicit null is a value like any other (it may be a legal value of the field)."""
+    r = RuleResult(rule_id, "a value found under a known key is converted whatever it is (no `if v is None: continue`)", floor=2)
+    for mname in ('try_convert_struct', 'collect_errors_struct'):
+        f = model.func(f'pane.classes.PaneConverter.{mname}')
+        cfg = cfg_of(model, f)
+        nz = Normalizer(model, f, cfg)
+        r.analysed.add(f.qualname)
+        for n in cfg.live_nodes():
+            for root in node_exprs(n):
+                for c in walk_no_nested(root):
+                    if not (isinstance(c, ast.Call) and isinstance(c.func, ast.Attribute) and c.func.attr in ('try_convert', 'convert', 'collect_errors') and c.args):
+                        continue
+                    if nz.expr(c.args[0], n) != 'VALUE(VAL)':
+                        continue
+                    r.instances += 1
+                    gov = _site_conditions(model, f, c)
+                    on_value = [('' if truth else 'not ') + text for (_g, text, truth) in gov if 'VALUE(VAL)' in text]
+                    r.sample({'pass': mname, 'conversion depends on the value through': on_value})
+                    if on_value:
+                        r.fail(f.qualname, f"conversion skipped depending on {on_value[0][:80]}", f.loc(c),
+                               "a value present in the data is ignored because of what it is (e.g. an explicit null when the field has a "
+                               "default): None written for an Optional field with another default reads back as the default")
+                    else:
+                        r.ok()
+    return r
+
+
+# ---------------------------------------------------------------------------- C08: the cause is printed in full
+
+
+def rule_cause_not_truncated(model: Model, rule_id: str = 'C08-R11') -> RuleResult:
+    """What is printed of a node's cause is the whole formatted exception: no slicing, splitting or picking of lines."""
+    r = RuleResult(rule_id, "the text of a node's cause is printed whole (never sliced, split or reduced to one line)", floor=2)
+    from .pairs import error_node_classes
+    cutters = {'split', 'rsplit', 'splitlines', 'partition', 'rpartition', 'strip', 'rstrip', 'lstrip', 'removeprefix', 'removesuffix'}
+    for q in sorted(error_node_classes(model)):
+        ci = model.cls(q)
+        for mname, g in ci.methods.items():
+            if not isinstance(g.node, ast.FunctionDef):
+                continue
+            srcs = [x for x in ast.walk(g.node) if isinstance(x, ast.Call) and isinstance(x.func, ast.Attribute)
+                    and x.func.attr in ('format', 'format_exception_only') and 'cause' in unparse(x.func.value)]
+            srcs += [x for x in ast.walk(g.node) if isinstance(x, ast.Call) and unparse(x.func).endswith('format_exception')]
+            for src in srcs:
+                r.instances += 1
+                r.analysed.add(g.qualname)
+                cut = None
+                child: ast.AST = src
+                for anc in ancestors(src):
+                    if isinstance(anc, ast.stmt):
+                        break
+                    if isinstance(anc, ast.Subscript) and anc.value is child:
+                        cut = unparse(anc)
+                    if isinstance(anc, ast.Call) and isinstance(anc.func, ast.Attribute) and anc.func.attr in cutters and _contains(anc.func.value, child):
+                        cut = unparse(anc)[:70]
+                    child = anc
+                # ... or through a local the text was stored in
+                st = next((a for a in ancestors(src) if isinstance(a, ast.stmt)), None)
+                if cut is None and isinstance(st, ast.Assign) and len(st.targets) == 1 and isinstance(st.targets[0], ast.Name):
+                    nm = st.targets[0].id
+                    for x in ast.walk(g.node):
+                        if isinstance(x, ast.Subscript) and isinstance(x.value, ast.Name) and x.value.id == nm and isinstance(x.ctx, ast.Load):
+                            cut = unparse(x)
+                        if isinstance(x, ast.Call) and isinstance(x.func, ast.Attribute) and x.func.attr in cutters \
+                                and isinstance(x.func.value, ast.Name) and x.func.value.id == nm:
+                            cut = unparse(x)[:70]
+                r.sample({'renderer': g.qualname, 'cause text': unparse(src)[:60], 'cut by': cut})
+                if cut is None:
+                    r.ok()
+                else:
+                    r.fail(g.qualname, f"cause text cut by `{cut}`", g.loc(src),
+                           "only part of the underlying exception reaches the message: a multi-line message (several problems reported at "
+                           "once, a nested ConvertError, notes) loses its type and all lines but one")
+    return r
+
+
+def _contains(root: ast.AST, node: ast.AST) -> bool:
+    return any(x is node for x in ast.walk(root))
+
+
+# ---------------------------------------------------------------------------- C09: an instance never adopts a caller's mapping as its namespace
+
+
+def rule_no_namespace_adoption(model: Model, rule_id: str = 'C09-R4') -> RuleResult:
+    """``object.__setattr__(self, '__dict__', d)`` / ``self.__dict__ = d`` makes ``d`` the instance's attribute dictionary: every later
+    attribute assignment (a ``__post_init__`` filling derived fields) writes into the caller's mapping."""
+    r = RuleResult(rule_id, "no object takes a mapping it was given as its attribute dictionary", floor=1)
+    n_funcs = 0
+    for f in model.all_functions():
+        if not isinstance(f.node, ast.FunctionDef) or not f.module.name.startswith('pane.'):
+            continue
+        n_funcs += 1
+        for x in walk_no_nested(f.node):
+            hit = None
+            if isinstance(x, ast.Call) and unparse(x.func).endswith('__setattr__') and len(x.args) >= 2 \
+                    and isinstance(x.args[-2], ast.Constant) and x.args[-2].value == '__dict__':
+                hit = x
+            if isinstance(x, (ast.Assign, ast.AnnAssign)):
+                tgts = x.targets if isinstance(x, ast.Assign) else [x.target]
+                if any(isinstance(tg, ast.Attribute) and tg.attr == '__dict__' for tg in tgts):
+                    hit = x
+            if isinstance(x, ast.Call) and isinstance(x.func, ast.Name) and x.func.id == 'setattr' and len(x.args) == 3 \
+                    and isinstance(x.args[1], ast.Constant) and x.args[1].value == '__dict__':
+                hit = x
+            if hit is not None:
+                r.instances += 1
+                r.analysed.add(f.qualname)
+                r.fail(f.qualname, f"`{unparse(hit)[:70]}`", f.loc(hit),
+                       "the mapping handed in becomes the object's own namespace: attributes assigned afterwards (by __post_init__, by the "
+                       "user) appear in the caller's dictionary")
+    r.instances += 1
+    r.sample({'functions scanned': n_funcs})
+    r.ok()
+    return r
+
+
+# ---------------------------------------------------------------------------- C10: nothing is remembered on a class through its instances
+
+
+def rule_no_state_on_class_via_instance(model: Model, rule_id: str = 'C10-R16') -> RuleResult:
+    """``setattr(self.__class__, NAME, value)`` / ``type(self).x = value`` at conversion time stores per-class state that attribute
+    lookup then finds from every subclass and every parametrisation: a converter cached for Base answers for Child."""
+    r = RuleResult(rule_id, "no attribute is stored on a class through one of its instances at run time", floor=1)
+    n_funcs = 0
+    for f in model.all_functions():
+        if not isinstance(f.node, ast.FunctionDef) or not f.module.name.startswith('pane.'):
+            continue
+        n_funcs += 1
+        me = f.params[0] if f.params else None
+        for x in walk_no_nested(f.node):
+            tgt = None
+            if isinstance(x, ast.Call) and isinstance(x.func, ast.Name) and x.func.id == 'setattr' and len(x.args) == 3:
+                tgt = x.args[0]
+            elif isinstance(x, (ast.Assign, ast.AugAssign, ast.AnnAssign)):
+                tgts = x.targets if isinstance(x, ast.Assign) else [x.target]
+                for tg in tgts:
+                    if isinstance(tg, ast.Attribute):
+                        tgt = tg.value
+            if tgt is None or me is None:
+                continue
+            s = unparse(tgt)
+            if s in (f'{me}.__class__', f'type({me})') and me != 'cls':
+                r.instances += 1
+                r.analysed.add(f.qualname)
+                r.fail(f.qualname, f"`{unparse(x)[:70]}`", f.loc(x),
+                       "state is attached to the class while converting: subclasses and parametrised classes inherit it by attribute lookup, "
+                       "so what a class does depends on whether its parent was used first")
+    r.instances += 1
+    r.sample({'functions scanned': n_funcs})
+    r.ok()
+    return r
+
+
+# ---------------------------------------------------------------------------- C12: the table of declared tags stays aligned with the variants
+
+
+def rule_tag_tables_aligned(model: Model, rule_id: str = 'C12-R8') -> RuleResult:
+    """``self.tags[i]`` is compared with the tag found in the data for variant ``i``.  When the tuple is taken from the keys of the tag
+    map, the map has to have been filled in the order of the variants (and never rebuilt in another order afterwards)."""
+    r = RuleResult(rule_id, "the tuple of declared tags lists them in the order of the variants (the tag map is filled in that order and never reordered)", floor=1)
+    ci = model.cls('pane.converters.TaggedUnionConverter')
+    init = ci.methods.get('__init__')
+    if init is None:
+        raise AnalysisError('TaggedUnionConverter.__init__ not found')
+    r.analysed.add(init.qualname)
+    me = init.params[0]
+    tags_from_map = None
+    for x in ast.walk(init.node):
+        if isinstance(x, (ast.Assign, ast.AnnAssign)):
+            tgts = x.targets if isinstance(x, ast.Assign) else [x.target]
+            if any(unparse(tg) == f'{me}.tags' for tg in tgts) and x.value is not None:
+                tags_from_map = x if f'{me}.tag_map' in unparse(x.value) else False
+    if tags_from_map is None:
+        # no parallel tuple: nothing to align
+        r.instances += 1
+        r.sample({'tags tuple': 'absent'})
+        r.ok()
+        return r
+    r.instances += 1
+    if tags_from_map is False:
+        r.sample({'tags tuple': 'taken from the variants themselves'})
+        r.ok()
+        return r
+    bad = None
+    writes = []
+    for g in ci.methods.values():
+        if not isinstance(g.node, ast.FunctionDef):
+            continue
+        gme = g.params[0] if g.params else 'self'
+        for x in walk_no_nested(g.node):
+            if isinstance(x, (ast.Assign, ast.AnnAssign, ast.AugAssign)):
+                tgts = x.targets if isinstance(x, ast.Assign) else [x.target]
+                for tg in tgts:
+                    if unparse(tg) == f'{gme}.tag_map':
+                        v = getattr(x, 'value', None)
+                        writes.append(unparse(x)[:80])
+                        if isinstance(x, ast.AugAssign):
+                            bad = (g, x)
+                        elif isinstance(v, ast.Dict) and not v.keys:
+                            pass
+                        elif isinstance(v, ast.Call) and unparse(v.func) in ('dict', 'OrderedDict', 'collections.OrderedDict') and not v.args and not v.keywords:
+                            pass
+                        elif isinstance(v, ast.DictComp) and len(v.generators) == 1 and not v.generators[0].ifs \
+                                and re.fullmatch(rf'enumerate\({gme}\.types\)|range\(len\({gme}\.types\)\)|zip\(.*{gme}\.types.*\)', unparse(v.generators[0].iter)):
+                            pass
+                        elif v is None:
+                            pass
+                        else:
+                            bad = (g, x)
+                    elif isinstance(tg, ast.Subscript) and unparse(tg.value) == f'{gme}.tag_map':
+                        writes.append(unparse(x)[:80])
+                        loop = next((a for a in ancestors(x) if isinstance(a, (ast.For, ast.While))), None)
+                        if g.name != '__init__' or not isinstance(loop, ast.For) \
+                                or not re.fullmatch(rf'enumerate\({gme}\.types\)|range\(len\({gme}\.types\)\)|zip\(.*{gme}\.types.*\)', unparse(loop.iter)):
+                            bad = (g, x)
+            if isinstance(x, ast.Call) and isinstance(x.func, ast.Attribute) and unparse(x.func.value) == f'{gme}.tag_map' \
+                    and x.func.attr in ('update', 'pop', 'popitem', 'clear', 'setdefault', 'move_to_end', '__setitem__'):
+                writes.append(unparse(x)[:80])
+                bad = (g, x)
+    r.sample({'tags tuple': unparse(tags_from_map)[:80], 'writes of the tag map': writes})
+    if bad is None:
+        r.ok()
+    else:
+        g, x = bad
+        r.fail(g.qualname, f"`{unparse(x)[:70]}` reorders or rebuilds the tag map the tuple of tags is read from", g.loc(x),
+               "the tuple of declared tags no longer lists them in the order of the variants: the kind of a tag found in the data is compared "
+               "with another variant's tag (a declared tag is refused, or an equal tag of another kind accepted)")
+    return r
+
+
+# ---------------------------------------------------------------------------- C11: the top-level writer uses the declared type
+
+
+def rule_declared_type_reaches_converter(model: Model, rule_id: str = 'C11-R10') -> RuleResult:
+    """``into_data(val, ty)`` builds the converter of the *declared* type: ``ty`` is only replaced when the caller gave none.  Narrowing
+    a declared union to "the alternative of the value's class" bypasses the union writer's member selection (the first alternative whose
+    origin is the class need not accept the value: ``List[int] | List[str]``, ``Annotated[int, cond] | int``)."""
+    r = RuleResult(rule_id, "the top-level writer hands the declared type to the converter factory (it is replaced only when absent)", floor=1)
+    f = model.func('pane.convert.into_data')
+    r.analysed.add(f.qualname)
+    if len(f.params) < 2:
+        raise AnalysisError('into_data(val, ty): parameters not found')
+    ty = f.params[1]
+    calls = [c for c in walk_no_nested(f.node) if isinstance(c, ast.Call) and model.resolve(c.func, f.module, f) == 'pane.convert.make_converter']
+    if not calls:
+        raise AnalysisError('into_data never calls make_converter')
+    cfg = cfg_of(model, f)
+    rd = cfg.reaching()
+    nz = Normalizer(model, f, cfg)
+    absent_re = re.compile(rf'(None is \$?{ty}|\$?{ty} is None|\$?{ty} == None|None == \$?{ty})')
+
+    def leaves(e: ast.AST, n: Node, absent: bool, depth: int = 0) -> t.List[t.Tuple[ast.AST, bool]]:
+        """(expression, evaluated only when the caller gave no type) for everything the argument may be."""
+        if isinstance(e, ast.IfExp):
+            text, pos = nz.literal(e.test, n)
+            is_absent_test = bool(absent_re.fullmatch(text))
+            return leaves(e.body, n, absent or (is_absent_test and pos), depth) + leaves(e.orelse, n, absent or (is_absent_test and not pos), depth)
+        if isinstance(e, ast.Call) and model.resolve(e.func, f.module, f) == 'typing.cast' and len(e.args) == 2:
+            return leaves(e.args[1], n, absent, depth)
+        if isinstance(e, ast.Name) and rd.is_local(e.id) and depth < 5:
+            out: t.List[t.Tuple[ast.AST, bool]] = []
+            for d in rd.at(n, e.id):
+                if d.kind == 'param':
+                    out.append((e, absent) if e.id != ty else (e, True))
+                elif d.kind in ('assign', 'walrus') and d.value is not None and not d.path:
+                    gov = _site_conditions(model, f, d.value)
+                    ab = absent or any(truth and absent_re.fullmatch(text) for (_g, text, truth) in gov)
+                    out += leaves(d.value, d.node, ab, depth + 1)
+                else:
+                    out.append((e, absent))
+            return out
+        return [(e, absent)]
+
+    for c in calls:
+        r.instances += 1
+        n = cfg.node_of(c)
+        if not c.args or n is None:
+            raise AnalysisError('into_data: make_converter call without a type argument')
+        got = leaves(c.args[0], n, False)
+        bad = [e for (e, ok) in got if not ok]
+        r.sample({'call': unparse(c)[:80], 'the type argument may be': [(unparse(e)[:40], 'declared type' if isinstance(e, ast.Name) and e.id == ty else
+                                                                           ('only when no type was given' if ok else 'ALWAYS')) for (e, ok) in got]})
+        if not bad:
+            r.ok()
+        else:
+            r.fail(f.qualname, f"the declared type is replaced by `{unparse(bad[0])[:60]}`", f.loc(bad[0]),
+                   "a declared union (or annotated type) is narrowed from the value's class before the union writer selects a member: the "
+                   "value is written by an alternative that may not accept it")
+    return r
+
+
+# ---------------------------------------------------------------------------- C11 / C10: no result is remembered under the data value
+
+
+def rule_no_value_keyed_memo(model: Model, rule_id: str = 'C11-R11') -> RuleResult:
+    """A conversion result stored in a table *keyed by the data value* is handed out again for every value equal to it: ``1``, ``True``
+    and ``1.0`` are one key, so the second of them gets the first one's result (the member the union chose for another kind)."""
+    r = RuleResult(rule_id, "no conversion result is stored in, or served from, a table keyed by the data value", floor=1)
+    deleg = {'try_convert', 'convert', 'collect_errors', 'into_data'}
+    n_funcs = 0
+    seen: t.Set[str] = set()
+
+    def delegations(e: ast.AST) -> t.List[ast.Call]:
+        return [c for c in ast.walk(e) if isinstance(c, ast.Call) and isinstance(c.func, ast.Attribute) and c.func.attr in deleg and c.args]
+
+    for cq, fs in sorted(conversion_zone(model).items()):
+        ci = model.cls(cq)
+        todo = list(fs) + [g for g in ci.methods.values() if g.name in ('into_data', '_into_data')]
+        for f in todo:
+            for g in [f] + list(_nested(model, f)):
+                if g.qualname in seen or not isinstance(g.node, ast.FunctionDef):
+                    continue
+                seen.add(g.qualname)
+                n_funcs += 1
+                for x in walk_no_nested(g.node):
+                    key = val = None
+                    if isinstance(x, ast.Assign) and len(x.targets) == 1 and isinstance(x.targets[0], ast.Subscript):
+                        key, val = x.targets[0].slice, x.value
+                    elif isinstance(x, ast.Call) and isinstance(x.func, ast.Attribute) and x.func.attr == 'setdefault' and len(x.args) == 2:
+                        key, val = x.args[0], x.args[1]
+                    if key is None or val is None:
+                        continue
+                    ks = unparse(key)
+                    table = unparse(x.targets[0].value) if isinstance(x, ast.Assign) else unparse(x.func.value)
+                    # a table that is only filled (keys of one mapping are distinct already) is no memo: it has to be consulted as well
+                    consulted = isinstance(x, ast.Call) or any(
+                        (isinstance(y, ast.Compare) and any(isinstance(o, (ast.In, ast.NotIn)) for o in y.ops) and unparse(y.comparators[-1]) == table)
+                        or (isinstance(y, ast.Call) and isinstance(y.func, ast.Attribute) and y.func.attr == 'get' and unparse(y.func.value) == table)
+                        or (isinstance(y, ast.ExceptHandler) and y.type is not None and 'KeyError' in unparse(y.type))
+                        for y in ast.walk(g.node))
+                    if not consulted:
+                        continue
+                    for d in delegations(val):
+                        if unparse(d.args[0]) == ks:
+                            r.instances += 1
+                            r.analysed.add(g.qualname)
+                            r.fail(g.qualname, f"`{unparse(x)[:70]}` remembers a result under the value converted", g.loc(x),
+                                   "values that compare equal but are of different kinds (1, True, 1.0) share one entry: the second is given the "
+                                   "result computed for the first, whatever member accepts it")
+    r.instances += 1
+    r.sample({'functions scanned': n_funcs})
+    r.ok()
+    return r
+
+
+def _nested(model: Model, f: FuncInfo) -> t.Iterator[FuncInfo]:
+    for g in model.all_functions():
+        p = g.parent
+        while p is not None:
+            if p is f:
+                yield g
+                break
+            p = p.parent
+
+
+# ---------------------------------------------------------------------------- C13: building a condition never fails
+
+
+def rule_condition_makers_total(model: Model, rule_id: str = 'C13-R8') -> RuleResult:
+    """The stock condition makers and the combinators describe a predicate; they have no argument combination to refuse: a range with
+    equal bounds accepts exactly that value (boundaries inclusive), a range with crossed bounds accepts nothing."""
+    r = RuleResult(rule_id, "the stock condition makers and the combinators build a condition for every argument combination (no raise)", floor=6)
+    names = ['pane.annotations.val_range', 'pane.annotations.len_range', 'pane.annotations.shape', 'pane.annotations.broadcastable']
+    ci = model.cls('pane.annotations.Condition')
+    names += [g.qualname for nm, g in ci.methods.items() if nm in ('all', 'any', '__and__', '__or__', '__invert__') and isinstance(g.node, ast.FunctionDef)]
+    for q in names:
+        f = model.func(q)
+        cfg = cfg_of(model, f)
+        r.instances += 1
+        r.analysed.add(q)
+        raises = [n for n in cfg.live_nodes() if n.kind == 'raise']
+        r.sample({q: [unparse(n.ast)[:60] for n in raises if n.ast is not None]})
+        if not raises:
+            r.ok()
+        else:
+            n = raises[0]
+            r.fail(q, f"`{unparse(n.ast)[:70] if n.ast is not None else 'raise'}`", f.loc(n.ast) if n.ast is not None else f.loc(),
+                   f"{f.name} refuses arguments for which the documented predicate is perfectly defined (e.g. min == max: exactly that "
+                   "value; boundaries are inclusive): the annotation can't even be written")
+    return r
+
+
+# ---------------------------------------------------------------------------- C13: a raising predicate is reported with its cause, always
+
+
+def rule_predicate_exception_carried(model: Model, rule_id: str = 'C13-R9') -> RuleResult:
+    """In the diagnostic pass of the conditional converter, the handler of the predicate's exception builds the failure node with a
+    cause on every path: the cause argument is never None and never left out (predicates implemented in C leave a traceback of our frame only)."""
+    r = RuleResult(rule_id, "the failure node built for a raising predicate carries the exception as its cause on every path", floor=1)
+    f = model.func('pane.converters.ConditionalConverter.collect_errors')
+    cfg = cfg_of(model, f)
+    rd = cfg.reaching()
+    r.analysed.add(f.qualname)
+    cause_pos = 3
+    handlers = []
+    for tr in ast.walk(f.node):
+        if isinstance(tr, ast.Try) and any(isinstance(c, ast.Call) and unparse(c.func).endswith('.condition') for s in tr.body for c in ast.walk(s)):
+            handlers += [h for h in tr.handlers if h.type is None or 'ParseInterrupt' not in unparse(h.type)]
+    if not handlers:
+        raise AnalysisError('ConditionalConverter.collect_errors: no handler around the predicate call')
+
+    def never_none(e: ast.AST, n: Node, depth: int = 0) -> t.Optional[str]:
+        if isinstance(e, ast.Constant) and e.value is None:
+            return 'None'
+        if isinstance(e, ast.IfExp):
+            return never_none(e.body, n, depth + 1) or never_none(e.orelse, n, depth + 1)
+        if isinstance(e, ast.Name) and rd.is_local(e.id) and depth < 4:
+            for d in rd.at(n, e.id):
+                if d.kind == 'handler':
+                    continue
+                if d.value is None or d.path:
+                    return f'{e.id} (not a plain assignment)'
+                bad = never_none(d.value, d.node, depth + 1)
+                if bad:
+                    return bad
+        return None
+
+    for h in handlers:
+        for st in ast.walk(h):
+            if not isinstance(st, ast.Return) or st.value is None:
+                continue
+            n = cfg.node_of(st.value)
+            if n is None or n.id not in cfg.reachable():
+                continue
+            r.instances += 1
+            c = st.value
+            cause: t.Optional[ast.AST] = None
+            if isinstance(c, ast.Call):
+                if len(c.args) > cause_pos:
+                    cause = c.args[cause_pos]
+                cause = next((k.value for k in c.keywords if k.arg == 'cause'), cause)
+            r.sample({'return': unparse(st)[:90], 'cause': unparse(cause) if cause is not None else None})
+            if not isinstance(c, ast.Call):
+                r.ok()   # a node built elsewhere: decided by C13-R1
+                continue
+            if cause is None:
+                r.fail(f.qualname, "the failure node of a raising predicate is built without a cause", f.loc(st),
+                       "the exception the predicate raised is lost: the report says the condition failed, not that it could not be evaluated")
+                continue
+            bad = never_none(cause, n)
+            if bad:
+                r.fail(f.qualname, f"the cause of the failure node may be {bad}", f.loc(st),
+                       "for a predicate that raises without a Python frame of its own (math.isfinite, operator.gt, len) the cause is dropped")
+            else:
+                r.ok()
+    return r
+
+
+# ---------------------------------------------------------------------------- C14: construction stores fields beneath the recording __setattr__
+
+
+def rule_init_stores_raw(model: Model, rule_id: str = 'C14-R10') -> RuleResult:
+    """``PaneBase.__setattr__`` adds every assigned name to the record of explicitly set fields (and refuses frozen classes).  The
+    generated constructor therefore stores through ``object.__setattr__``: a dispatching store (``setattr(self, ...)``, ``self.x = ...``)
+    would record defaulted fields as supplied."""
+    r = RuleResult(rule_id, "the generated constructor stores fields with object.__setattr__, never through the recording __setattr__", floor=2)
+    base = model.cls('pane.classes.PaneBase')
+    sa = base.methods.get('__setattr__')
+    records = sa is not None and any(isinstance(c, ast.Call) and isinstance(c.func, ast.Attribute) and c.func.attr in ('add', 'update')
+                                     for c in ast.walk(sa.node))
+    init = model.func('pane.classes._make_init.__init__')
+    r.analysed.add(init.qualname)
+    me = init.params[0]
+    raw = disp = 0
+    for x in walk_no_nested(init.node):
+        if isinstance(x, ast.Call) and unparse(x.func) in ('object.__setattr__', 'super().__setattr__') and x.args and unparse(x.args[0]) == me:
+            raw += 1
+            r.instances += 1
+            r.ok()
+            continue
+        hit = None
+        if isinstance(x, ast.Call) and isinstance(x.func, ast.Name) and x.func.id == 'setattr' and x.args and unparse(x.args[0]) == me:
+            hit = x
+        elif isinstance(x, ast.Call) and unparse(x.func) == f'{me}.__setattr__':
+            hit = x
+        elif isinstance(x, (ast.Assign, ast.AnnAssign, ast.AugAssign)):
+            tgts = x.targets if isinstance(x, ast.Assign) else [x.target]
+            if any(isinstance(tg, ast.Attribute) and unparse(tg.value) == me for tg in tgts):
+                hit = x
+        if hit is not None and records:
+            disp += 1
+            r.instances += 1
+            r.fail(init.qualname, f"`{unparse(hit)[:70]}` goes through the class's __setattr__", init.loc(hit),
+                   "every field stored this way is added to the record of explicitly set fields: defaults are reported by dict(set_only=True) "
+                   "and written by into_data as if they had been supplied")
+    r.sample({'raw stores': raw, 'dispatching stores': disp, '__setattr__ records the name': records})
+    if raw == 0 and disp == 0:
+        raise AnalysisError('_make_init.__init__: no field store found')
+    return r
+
+
+# ---------------------------------------------------------------------------- C17: each option is inherited on its own
+
+
+def rule_options_replaced_independently(model: Model, rule_id: str = 'C17-R13') -> RuleResult:
+    """``PaneOptions.replace(**changes)`` overrides exactly the options that were given: no option is derived from another one there
+    (an inherited ``in_rename`` survives a subclass that only changes ``out_rename``)."""
+    r = RuleResult(rule_id, "replacing class options changes the named options only: none is derived from another", floor=1)
+    f = model.func('pane.classes.PaneOptions.replace')
+    r.analysed.add(f.qualname)
+    kw = f.node.args.kwarg.arg if f.node.args.kwarg is not None else None
+    if kw is None:
+        raise AnalysisError('PaneOptions.replace: no **changes parameter')
+
+    def keys_read(e: ast.AST) -> t.Set[str]:
+        out: t.Set[str] = set()
+        for x in ast.walk(e):
+            if isinstance(x, ast.Subscript) and unparse(x.value) == kw and isinstance(x.slice, ast.Constant):
+                out.add(str(x.slice.value))
+            if isinstance(x, ast.Call) and isinstance(x.func, ast.Attribute) and unparse(x.func.value) == kw \
+                    and x.func.attr in ('get', 'pop') and x.args and isinstance(x.args[0], ast.Constant):
+                out.add(str(x.args[0].value))
+        return out
+
+    stores = []
+    for x in walk_no_nested(f.node):
+        key = val = None
+        if isinstance(x, ast.Assign) and len(x.targets) == 1 and isinstance(x.targets[0], ast.Subscript) and unparse(x.targets[0].value) == kw:
+            key, val = x.targets[0].slice, x.value
+        elif isinstance(x, ast.Call) and isinstance(x.func, ast.Attribute) and unparse(x.func.value) == kw \
+                and x.func.attr == 'setdefault' and len(x.args) == 2:
+            key, val = x.args[0], x.args[1]
+        elif isinstance(x, ast.Call) and isinstance(x.func, ast.Attribute) and unparse(x.func.value) == kw and x.func.attr == 'update':
+            key, val = ast.Constant(value='*'), x
+        if key is None or val is None:
+            continue
+        r.instances += 1
+        k = str(key.value) if isinstance(key, ast.Constant) else unparse(key)
+        others = sorted(keys_read(val) - {k})
+        # ... or read from the record itself (self.<other option>)
+        me = f.params[0]
+        others += sorted({a.attr for a in ast.walk(val) if isinstance(a, ast.Attribute) and unparse(a.value) == me and a.attr != k})
+        stores.append({'option': k, 'from': others})
+        if others:
+            r.fail(f.qualname, f"option {k!r} is set from {others}", f.loc(x),
+                   f"a class that overrides {others[0]!r} silently overrides {k!r} as well: the value inherited from its bases is lost")
+        else:
+            r.ok()
+    if not stores:
+        r.instances += 1
+        r.ok()
+    r.sample({'stores into the changes': stores})
+    return r
+
+
+# ---------------------------------------------------------------------------- C18: handlers are offered the type the dispatch itself looks at
+
+
+def rule_handlers_see_dispatch_subject(model: Model, rule_id: str = 'C18-R11') -> RuleResult:
+    """Both handler loops of ``make_converter`` call ``handler(base, args, ...)`` with the very ``base`` / ``args`` the built-in arms go on
+    to test (``issubclass(base, HasConverter)``, ``base in _BASIC_CONVERTERS``): a handler written for ``Mapping`` is asked about
+    ``Mapping``, not about the concrete class that would be built."""
+    r = RuleResult(rule_id, "custom handlers are called with the same (origin, arguments) the built-in dispatch tests", floor=2)
+    f = model.func('pane.convert.make_converter')
+    cfg = cfg_of(model, f)
+    nz = Normalizer(model, f, cfg)
+    r.analysed.add(f.qualname)
+    subject: t.Set[str] = set()
+    argforms: t.Set[str] = set()
+    calls: t.List[t.Tuple[ast.Call, Node]] = []
+    for n in cfg.live_nodes():
+        for root in node_exprs(n):
+            for c in walk_no_nested(root):
+                if isinstance(c, ast.Call) and isinstance(c.func, ast.Name) and c.func.id == 'issubclass' and len(c.args) == 2 \
+                        and 'HasConverter' in unparse(c.args[1]):
+                    subject.add(nz.expr(c.args[0], n))
+                if isinstance(c, ast.Call) and isinstance(c.func, ast.Attribute) and c.func.attr == '_converter':
+                    for a in c.args:
+                        if isinstance(a, ast.Starred):
+                            argforms.add(nz.expr(a.value, n))
+                if isinstance(c, ast.Call) and isinstance(c.func, ast.Name) and len(c.args) >= 2:
+                    loop = next((a for a in ancestors(c) if isinstance(a, ast.For)), None)
+                    if loop is not None and isinstance(loop.target, ast.Name) and loop.target.id == c.func.id \
+                            and ('handlers' in unparse(loop.iter).lower()):
+                        calls.append((c, n))
+    if len(subject) != 1 or len(argforms) != 1:
+        raise AnalysisError(f"make_converter: dispatch subject not found (issubclass(.., HasConverter): {sorted(subject)}, _converter(*..): {sorted(argforms)})")
+    (subj,), (argf,) = subject, argforms
+    strip = lambda s: re.sub(r'^typing\.cast\([^,]+, (.*)\)$', r'\1', s)  # noqa: E731
+    for c, n in calls:
+        r.instances += 1
+        a0, a1 = strip(nz.expr(c.args[0], n)), strip(nz.expr(c.args[1], n))
+        r.sample({'loop': unparse(next(a for a in ancestors(c) if isinstance(a, ast.For)).iter), 'offered': [a0, a1], 'dispatch tests': [subj, argf]})
+        if a0 != subj:
+            r.fail(f.qualname, f"handlers are offered `{unparse(c.args[0])[:50]}` while the dispatch tests another expression", f.loc(c),
+                   "a handler registered for an annotation (Mapping, Sequence, an abstract class) is asked about a different class than the one "
+                   "written in the annotation: it no longer applies, or applies to annotations it was not written for")
+        elif a1 != argf:
+            r.fail(f.qualname, f"handlers are offered the arguments `{unparse(c.args[1])[:50]}`", f.loc(c),
+                   "the type arguments a handler receives are not the ones of the annotation")
+        else:
+            r.ok()
+    return r
+
+
+# ---------------------------------------------------------------------------- C19: formatting options are forwarded, not interpreted
+
+
+def rule_format_options_only_forwarded(model: Model, rule_id: str = 'C19-R8') -> RuleResult:
+    """The writers hand every formatting option to the backend as it is; they never compare it, compute with it or validate it (the
+    backends accept more than one kind of value: ``indent`` of ``json.dump`` is an int *or* a string)."""
+    r = RuleResult(rule_id, "formatting options of the writers are only handed on (as keyword values), never interpreted", floor=10)
+    not_options = {'obj', 'f', 'ty', 'custom', 'self', 'cls'}
+    for q in ('pane.io.write_json', 'pane.io.write_yaml'):
+        f = model.func(q)
+        r.analysed.add(q)
+        a = f.node.args
+        opts = [p.arg for p in a.posonlyargs + a.args + a.kwonlyargs if p.arg not in not_options]
+        parents: t.Dict[int, ast.AST] = {}
+        for x in ast.walk(f.node):
+            for ch in ast.iter_child_nodes(x):
+                parents[id(ch)] = x
+        for o in opts:
+            r.instances += 1
+            bad = None
+            uses = 0
+            for x in ast.walk(f.node):
+                if isinstance(x, ast.Name) and x.id == o and isinstance(x.ctx, ast.Load):
+                    uses += 1
+                    par = parents.get(id(x))
+                    if isinstance(par, ast.keyword) and par.value is x:
+                        continue
+                    if isinstance(par, ast.Dict) and any(v is x for v in par.values):
+                        continue
+                    bad = par if par is not None else x
+            r.sample({f'{f.name}({o}=)': uses})
+            if bad is None:
+                r.ok()
+            else:
+                r.fail(q, f"option `{o}` is used in `{unparse(bad)[:60]}`", f.loc(bad),
+                       f"the writer interprets `{o}` itself: a value the backend accepts (a string indent, a bool, None) is compared or "
+                       "checked as if it were of one kind, and the call fails before anything is written")
+    return r
+
+
+# ---------------------------------------------------------------------------- C17 / C20: a class option that is given reaches the record
+
+
+def rule_given_option_reaches_record(model: Model, rule_id: str = 'C17-R14') -> RuleResult:
+    """Converse of C17-R1: when a class statement *does* give an option, the option update receives a value for it on every path
+    (``rename='snake'`` in a subclass of a camel-case class is an override like any other, not "nothing to do")."""
+    from ..noneval import NONE, SOME, NoneEval
+    r = RuleResult(rule_id, "an option given in the class statement reaches the option update (never dropped for what its value is)", floor=8)
+    f = model.func('pane.classes.PaneBase.__init_subclass__')
+    r.analysed.add(f.qualname)
+    c = next((x for x in ast.walk(f.node) if isinstance(x, ast.Call) and isinstance(x.func, ast.Attribute) and x.func.attr == 'replace'
+              and len(x.keywords) >= 5), None)
+    if c is None:
+        raise AnalysisError('PaneBase.__init_subclass__: option update (opts.replace(...)) not found')
+    kwnames = {k.arg for k in c.keywords if k.arg}
+    a = f.node.args
+    params = [p.arg for p in a.kwonlyargs] + [p.arg for p in a.args[1:]]
+    for p_ in params:
+        feeds = {p_} & kwnames
+        if p_ == 'rename':
+            feeds = {'in_rename', 'out_rename'} & kwnames
+        if p_ == 'custom':
+            feeds = {'class_handlers', 'custom'} & kwnames
+        if not feeds:
+            continue
+        ev = NoneEval(model)
+        env = ev.defaults(f)
+        env[p_] = SOME
+        seen: t.Dict[str, t.Set[t.Any]] = {}
+
+        def observe(st: ast.stmt, env_: t.Dict[str, t.Any]) -> None:
+            if any(x is c for x in ast.walk(st)):
+                for k_ in c.keywords:
+                    if k_.arg in feeds:
+                        seen.setdefault(t.cast(str, k_.arg), set()).add(ev.value(k_.value, dict(env_), f))
+        ev.run(f, env, observe)
+        r.instances += 1
+        r.sample({p_: {k: sorted(map(str, v)) for k, v in seen.items()}})
+        lost = sorted(k for k in feeds if NONE in seen.get(k, {NONE}))
+        if not lost:
+            r.ok()
+        else:
+            r.fail(f.qualname, f"class argument `{p_}` can reach the option update as None ({', '.join(lost)})", f.loc(c),
+                   f"for some value of `{p_}` the class keeps what it inherited instead of what it states (rename='snake' under a "
+                   "camel-case base: the names stay camel-case)")
+    return r
+
+
+# ---------------------------------------------------------------------------- C19: reading and writing are not memoised
+
+
+def rule_io_not_memoised(model: Model, rule_id: str = 'C19-R9') -> RuleResult:
+    """Every read builds a new value from the text it is given *now*: an entry point wrapped in a memoiser would need hashable arguments
+    (streams, handler mappings are not), would serve a file's old contents after it has been rewritten, and would hand out one shared
+    (mutable) object for equal documents."""
+    from .memo import memoised
+    r = RuleResult(rule_id, 'no reading / writing entry point (pane.io, the dataclass from_* / write_* methods) is wrapped in a memoiser', floor=8)
+    memo = {f.qualname: kind for (f, kind, _kf, _d) in memoised(model)}
+    io = model.module('pane.io')
+    entries = [f for f in model.all_functions() if f.module is io and f.parent is None and f.cls is None]
+    base = model.cls('pane.classes.PaneBase')
+    entries += [g for nm, g in base.methods.items() if re.match(r'(from|write|into)_(json|yaml|yaml_all|data|dict|obj)', nm)]
+    for f in sorted(entries, key=lambda f: f.qualname):
+        r.instances += 1
+        r.analysed.add(f.qualname)
+        if f.qualname in memo:
+            r.fail(f.qualname, f"@{memo[f.qualname].split('.')[-1]} on an I/O entry point", f.loc(),
+                   "equal documents give one shared instance, open streams and handler mappings raise TypeError (unhashable), and a path is "
+                   "read once however often the file changes")
+        else:
+            r.ok()
+    r.sample({'entry points': len(entries), 'memoised functions of the package': sorted(memo)})
+    return r
+
+
+# ---------------------------------------------------------------------------- C04: error nodes are never compared with ==
+
+
+def rule_error_nodes_not_compared(model: Model, rule_id: str = 'C04-R8') -> RuleResult:
+    """Error nodes are dataclasses whose ``==`` compares the offending *raw input* (``actual``): ``node in nodes`` / ``a == b`` on them
+    runs the input's own ``__eq__`` (an array answers with an array whose truth value is ambiguous, Decimal('sNaN') raises)."""
+    from .pairs import builds_error_node
+    r = RuleResult(rule_id, "the diagnostic pass never compares error nodes by equality (==, in, index, count, remove)", floor=10)
+    zone = conversion_zone(model)
+    for cls in family(model):
+        for f in zone[cls.qualname]:
+            if not isinstance(f.node, ast.FunctionDef) or f.qualname in r.analysed:
+                continue
+            r.analysed.add(f.qualname)
+            r.instances += 1
+            nodes: t.Set[str] = set()      # locals holding an error node
+            lists: t.Set[str] = set()      # locals holding a collection of them
+            for _round in range(3):
+                for x in walk_no_nested(f.node):
+                    if isinstance(x, (ast.Assign, ast.AnnAssign)) and x.value is not None:
+                        tgts = x.targets if isinstance(x, ast.Assign) else [x.target]
+                        v = x.value
+                        made = any((isinstance(c, ast.Call) and isinstance(c.func, ast.Attribute) and c.func.attr == 'collect_errors')
+                                   or builds_error_node(model, f, c) for c in ast.walk(v) if isinstance(c, ast.Call)) \
+                            or (isinstance(v, ast.Name) and v.id in nodes)
+                        coll = isinstance(v, (ast.ListComp, ast.List, ast.Dict, ast.DictComp, ast.GeneratorExp, ast.Tuple))
+                        for tg in tgts:
+                            if isinstance(tg, ast.Name) and made:
+                                (lists if coll else nodes).add(tg.id)
+                    if isinstance(x, ast.NamedExpr) and isinstance(x.target, ast.Name) \
+                            and any(isinstance(c, ast.Call) and isinstance(c.func, ast.Attribute) and c.func.attr == 'collect_errors' for c in ast.walk(x.value)):
+                        nodes.add(x.target.id)
+                    if isinstance(x, ast.Call) and isinstance(x.func, ast.Attribute) and x.func.attr in ('append', 'add', 'insert', 'extend') \
+                            and isinstance(x.func.value, ast.Name) and x.args:
+                        a_ = x.args[-1]
+                        if (isinstance(a_, ast.Name) and a_.id in nodes) or any(
+                                isinstance(c, ast.Call) and isinstance(c.func, ast.Attribute) and c.func.attr == 'collect_errors' for c in ast.walk(a_)) \
+                                or builds_error_node(model, f, a_):
+                            lists.add(x.func.value.id)
+            bad = None
+            for x in walk_no_nested(f.node):
+                if isinstance(x, ast.Compare) and len(x.ops) == 1 and isinstance(x.ops[0], (ast.Eq, ast.NotEq, ast.In, ast.NotIn)):
+                    l_, r_ = x.left, x.comparators[0]
+                    if isinstance(r_, ast.Constant) and r_.value is None or isinstance(l_, ast.Constant) and l_.value is None:
+                        continue
+                    if isinstance(x.ops[0], (ast.In, ast.NotIn)):
+                        if isinstance(l_, ast.Name) and l_.id in nodes and isinstance(r_, ast.Name) and r_.id in lists:
+                            bad = x
+                    elif any(isinstance(o, ast.Name) and o.id in (nodes | lists) for o in (l_, r_)):
+                        bad = x
+                if isinstance(x, ast.Call) and isinstance(x.func, ast.Attribute) and x.func.attr in ('index', 'count', 'remove') \
+                        and isinstance(x.func.value, ast.Name) and x.func.value.id in lists:
+                    bad = x
+            if bad is None:
+                r.ok()
+            else:
+                r.fail(f.qualname, f"`{unparse(bad)[:60]}` compares error nodes by value", f.loc(bad),
+                       "equality of error nodes compares the raw inputs they carry: for an input whose == does not answer with a Boolean (an "
+                       "array) or raises, ValueError / TypeError escapes from the conversion instead of ConvertError")
+    return r
+
+
+# ---------------------------------------------------------------------------- C14 / C03: receivers of field keywords take nothing else by name
+
+
+def rule_field_keyword_receivers(model: Model, rule_id: str = 'C14-R11') -> RuleResult:
+    """The generated constructor, ``make_unchecked`` and ``__replace__`` receive *field names* as keyword arguments.  Their own
+    parameters (``self`` / ``cls``) are therefore positional-only: otherwise a field called ``self`` or ``cls`` collides with them
+    (``cls(self=1)``: "got multiple values for argument 'self'" - which the diagnostic pass of the mapping layout, building its trial
+    instance with ``make_unchecked(**values)``, reports as an error of a value the fast pass accepted)."""
+    r = RuleResult(rule_id, "functions that receive field names as keywords take their receiver positional-only", floor=3)
+    targets = ['pane.classes._make_init.__init__', 'pane.classes._make_init.make_unchecked', 'pane.classes.PaneBase.__replace__',
+               'pane.classes.PaneBase.make_unchecked']
+    for q in targets:
+        f = model.functions.get(q)
+        if f is None:
+            continue
+        a = f.node.args
+        if a.kwarg is None:
+            continue
+        r.instances += 1
+        r.analysed.add(q)
+        named = [p.arg for p in a.args + a.kwonlyargs]
+        r.sample({q: {'positional-only': [p.arg for p in a.posonlyargs], 'may be given by name': named, '**': a.kwarg.arg}})
+        if not named:
+            r.ok()
+        else:
+            r.fail(q, f"parameter `{named[0]}` can be bound by keyword next to **{a.kwarg.arg}", f.loc(),
+                   f"a field named {named[0]!r} cannot be passed: the constructor raises TypeError (multiple values), and for mapping data "
+                   "the quick pass accepts what the diagnostic pass then reports as an error")
+    if r.instances < 3:
+        raise AnalysisError('generated constructor / make_unchecked / __replace__ not found')
+    return r
